@@ -9,7 +9,7 @@ import AbraModel.Drv.Sem
    Answer: for every lambda/task of every body `captures:locals`, sorted; then ` loops=ok|bad`
    (checker loop context accepts and, if so, the code generator's agrees) and ` table=ok|missing` (every lookup of every
    function body — main, lambdas, tasks — has an entry in that function's offset table). -/
-namespace Abra.Drv
+namespace Abra.Drv.BG9
 open Abra.Analysis
 
 def natsOf (xs : List SExp) : Option (List Nat) :=
@@ -79,6 +79,12 @@ end
 def insertPairSorted (p : Nat × Nat) : List (Nat × Nat) → List (Nat × Nat)
   | [] => [p]
   | q :: r => if p.1 < q.1 || (p.1 == q.1 && p.2 ≤ q.2) then p :: q :: r else q :: insertPairSorted p r
+
+end Abra.Drv.BG9
+
+namespace Abra.Drv
+open Abra.Drv.BG9
+open Abra.Analysis
 
 def handleAnalysis (toks : List String) : String :=
   match parseSExp toks with
